@@ -107,6 +107,9 @@ STATEMENTS = [
     (['h = bR"""a "q"', '', 'b"""'], None), (["print(fR'''x'y{2}''')"], ["x'y2"]),
     # characters that str.splitlines() breaks at, inside a string literal or a comment, with an unmatched bracket or quotes behind them
     (["rec = 'id\x1e(none'"], None), (["note = 1  # see \x85 [draft"], None), (["sep = 'a\x0c{' + \"\u2028'''\""], None), (["print(len('x\x1c)'))"], ['3']),
+    # grammar younger than Python 3.8: doctest source is parsed with the grammar of the running interpreter
+    (['match x:', '    case 1:', '        y = 2', '    case _:', '        y = 3'], None), (['with (open(f) as a,', '      open(g) as b):', '    pass'], None),
+    (['try:', '    pass', 'except* ValueError:', '    pass'], None), (['def first[T](xs: list[T]) -> T:', '    return xs[0]'], None), (['type Pair[T] = tuple[T, T]'], None),
 ]
 
 
